@@ -674,6 +674,13 @@ func run(c *mon.Ctx) {
 		}
 		check := func(when string) bool {
 			order := r.Perm(len(p.Streams)) // the first query may be for any stream
+			if r.Bool() {
+				// other questions are put to the PMT first (does it list this PID? which PIDs are there?): reads
+				m.PIDExists(p.Streams[order[0]].PID)
+				m.PIDExists(0x1ffd)
+				m.Pids()
+				c.Count("pmt_query.other_queries_first")
+			}
 			for _, oi := range order {
 				s := p.Streams[oi]
 				want := lags(s.Type) && !gone[s.PID]
